@@ -334,19 +334,14 @@ fn rand_finite(r: &mut Rng) -> f64 {
     }
 }
 
-/// The class of inputs on which `n / width` overflows to +inf although width > 0:
-/// computed from the input alone.
-fn seg_kf(mn: f64, mx: f64, order: u32) -> Option<&'static str> {
+/// `n / width` overflows to +inf although width > 0 (the inputs on which the pinned code hung)
+fn seg_overflows(mn: f64, mx: f64, order: u32) -> bool {
     let width = mx - mn;
     let n = (1u64 << order) as f64;
-    if mn.is_finite() && mx.is_finite() && mn < mx && width > 0.0 && (n / width).is_infinite() {
-        Some("hilbert-seg-factor-overflow-hang")
-    } else {
-        None
-    }
+    mn.is_finite() && mx.is_finite() && mn < mx && width > 0.0 && (n / width).is_infinite()
 }
 
-fn case_seg(r: &mut Rng, force_kf: bool) -> Out {
+fn case_seg(r: &mut Rng, force_overflow: bool) -> Out {
     let mut order = match r.below(10) {
         0 => 0,
         1 => MAX2,
@@ -391,21 +386,28 @@ fn case_seg(r: &mut Rng, force_kf: bool) -> Out {
         }
     };
     let mut fam = fam.to_string();
-    if force_kf {
-        // subnormal / tiny width at a high order: n / width = +inf
-        order = 22 + r.below(11) as u32;
-        mn = *r.pick(&[0.0, -0.0, 1.0e-310]);
-        mx = mn + *r.pick(&[5e-324, 1e-310, 2.0e-308 / 4096.0]);
-        fam = "seg_factor_overflow".into();
+    if force_overflow {
+        // subnormal / tiny width at a high order: n / width = +inf, or on the overflow boundary
+        order = if r.chance(1, 3) { r.below(MAX2 as u64 + 1) as u32 } else { 22 + r.below(11) as u32 };
+        mn = *r.pick(&[0.0, -0.0, 1.0e-310, 1.0]);
+        let n = (1u64 << order) as f64;
+        let mut w = match r.below(5) {
+            0 => 5e-324,
+            1 => 1e-310,
+            2 => 2.0e-308 / 4096.0,
+            _ => n / f64::MAX, // the boundary width, then a few ulps around it
+        };
+        for _ in 0..r.below(4) {
+            w = if r.chance(1, 2) { next_up(w) } else { next_down(w).max(5e-324) };
+        }
+        mx = mn + w;
+        fam = if seg_overflows(mn, mx, order) { "seg_factor_overflow".into() } else { "seg_factor_near_overflow".into() };
     }
     if !(mn <= mx) {
         std::mem::swap(&mut mn, &mut mx);
     }
-    let kf = seg_kf(mn, mx, order);
-    if kf.is_some() && !force_kf {
-        // keep the known-finding class to its own, counted family (each hang leaks a spinning thread)
-        mx = mn;
-        fam = "seg_degenerate".into();
+    if seg_overflows(mn, mx, order) {
+        fam = "seg_factor_overflow".into();
     }
     // sample values: ends, their neighbours, cell boundaries +- 1 ulp, random points
     let mut vs: Vec<f64> = vec![mn, mx, next_up(mn), next_down(mx), mn / 2.0 + mx / 2.0];
@@ -434,7 +436,7 @@ fn case_seg(r: &mut Rng, force_kf: bool) -> Out {
     vs.dedup_by(|a, b| a.to_bits() == b.to_bits());
     let vs2 = vs.clone();
     let o = order as usize;
-    let res = guarded(0, Duration::from_millis(if kf.is_some() { 1500 } else { 20_000 }), move || {
+    let res = guarded(0, Duration::from_millis(5_000), move || {
         let f = vh::segment_to_segment(mn, mx, o);
         vs2.iter().map(|v| f(*v)).collect::<Vec<u64>>()
     });
@@ -444,10 +446,7 @@ fn case_seg(r: &mut Rng, force_kf: bool) -> Out {
         Guarded::Panic(m) => ("SPanic".to_string(), format!("{{\"panic\":{}}}", json_str(m))),
         Guarded::Hang => ("SHang".to_string(), "{\"hang\":true}".to_string()),
     };
-    let kfj = match kf {
-        Some(k) => format!("\"kf\":\"{}\",", k),
-        None => String::new(),
-    };
+    let kfj = String::new(); // (no open known-finding class for this property)
     Out {
         coq: format!("KSeg {} {} {} {} {}", mn.to_bits(), mx.to_bits(), order, nlist(&bits), coq_o),
         json: format!(
@@ -550,7 +549,7 @@ fn main() {
     let mut extra: Vec<String> = Vec::new();
     let mut hangs = 0usize;
     let mut panics = 0usize;
-    let kf_cases = if thorough { 4 } else { 2 };
+    let overflow_cases = if thorough { 200 } else { 40 };
 
     // exhaustive sweeps on the Rust side (thorough tier): orders 1..=12 (2-D), 1..=7 (3-D)
     let mut sweep_fail: Vec<(u32, u32, u64, u64, u64)> = Vec::new();
@@ -604,7 +603,7 @@ fn main() {
             let o = idx as u32 - 43;
             let (x, y, z) = (coord(&mut r, o), coord(&mut r, o), coord(&mut r, o));
             case3(o, x, y, z, "encode_3d_each_order")
-        } else if idx < 65 + kf_cases {
+        } else if idx < 65 + overflow_cases {
             case_seg(&mut r, true)
         } else {
             match r.below(20) {
